@@ -4,7 +4,8 @@ import common
 import impl
 
 TOP = ['theories/Props/C11.v', 'theories/Props/C11_iter.v', 'theories/Tie/TieTables.v',
-       'theories/Tie/TieUtils.v', 'theories/Tie/TieUtilsIter.v', 'theories/Tie/TieUtilsVerbose.v']
+       'theories/Tie/TieUtils.v', 'theories/Tie/TieUtilsIter.v', 'theories/Tie/TieUtilsVerbose.v', 'theories/Tie/TieColor.v', 'theories/Tie/TieWrColorFull.v',
+       'theories/Tie/TiePng.v']
 
 RULE = ('all 44 symbol sizes, a real symbol per size (random content/level/mask from the seed), '
         'matrix_iter_verbose compared cell by cell with the extracted ISO classifier for several (scale, border); '
